@@ -88,6 +88,19 @@ Proof.
   exists [(SOther, 1, 7)], (mkinst (fun _ => 0) None), 1. split; [vm_compute; reflexivity | vm_compute; discriminate].
 Qed.
 
+(* ruvsearch stores a model (IIV_on_RUV_n) whose Y statement uses ETA_BASE while the random variable is called eta_base:
+   the statement list is not acceptable to _canonicalize_statements over the model's own symbols.
+   Symbols: 1 theta, 2 eta_base (the rv), 3 ETA_RV1, 4 EPS_1, 5 t, 6 NaN, 7 ETA_BASE (used, undefined), 10 Y *)
+Theorem renamed_symbol_refuted :
+  exists base t nan l,
+    canon base t nan l = Some NotDefined /\
+    canon (7%positive :: base) t nan l = None.
+Proof.
+  exists [1%positive; 2%positive; 3%positive; 4%positive], 5%positive, 6%positive,
+         [mkc false 10%positive None [4%positive; 3%positive; 7%positive; 1%positive]].
+  split; vm_compute; reflexivity.
+Qed.
+
 (* ---- eq / hash: the term tables of the classes whose __hash__ hashes (or hashed) a term __eq__ does not compare.
    Field numbers are arbitrary labels; how = 0 raw attribute, 1 attribute seen through a function. *)
 (* CompartmentalSystem — REPAIRED in /repo 698ece8 (regression examples).  == compares _t,
